@@ -85,6 +85,7 @@ type FuncSpec struct {
 	Allocates bool
 	Pure      bool
 	Blocking  bool // the call can block (C16, rule SB)
+	MayDiverge bool // the function need not return (no vacuity alarm for unreachable returns)
 	Wraps     map[string]bool
 	Where     string
 	External  bool
@@ -385,6 +386,8 @@ func (sp *Specs) parseSpecFile(path, pkg string) error {
 			curF.Pure = true
 		case kw == "blocking" && curF != nil:
 			curF.Blocking = true
+		case kw == "may-diverge" && curF != nil:
+			curF.MayDiverge = true
 		case kw == "wraps" && curF != nil:
 			for _, w := range f[1:] {
 				curF.Wraps[w] = true
